@@ -484,8 +484,8 @@ func (v *LogScopeVariables) Set(s context.Scope, name, operator string, val valu
 func (v *LogScopeVariables) Add(s context.Scope, name string, val value.Value) error {
 	// Add statement could be use only for HTTP header
 	match := responseHttpHeaderRegex.FindStringSubmatch(name)
-	if match != nil {
-		// Nothing values to be enable to add in PASS, pass to base
+	if match == nil {
+		// Nothing values to be enable to add in LOG, pass to base
 		return v.base.Add(s, name, val)
 	}
 	if err := limitations.CheckProtectedHeader(match[1]); err != nil {
